@@ -226,7 +226,7 @@ func scenC02(c *ctx) {
 }
 
 // ---------------- C03 ----------------
-var skewsOK = []uint64{0, 1, 2, 3, 5, 9, 10}
+var skewsOK = []uint64{0, 1, 2, 3, 4, 5, 6, 7, 8, 9, 10} // every admitted window
 var skewsRefused = []uint64{11, 12, 255, 1 << 32, 1 << 63, 1<<64 - 1}
 
 func (c *ctx) hotpValidateCase(tag string, key []byte, secret string, ctr uint64, p P, dist int, edit string) Event {
